@@ -1,6 +1,9 @@
 (* C07 model driver. Cases:
      D <hex>         decode the byte string with every reader
      E <tree>        encode the tree, then decode the encoding with every reader
+     B <K|B> <cap> <tree>   buffered writer (coq/C07/WriteBuf.v): K = callback keeps the buffer (stream /
+                     sha1 / size), prints the chunks the callback saw; B = object_write_to_buffer into
+                     cap bytes, prints the bytes written or ERR:internal
    tree ::= I <dec> | S <hex|-> | L <n> tree*n | M <n> (<hex|-> tree)*n              *)
 let rec parse_tree toks = match toks with
   | "I" :: z :: r -> (VInt (z_of_string z), r)
@@ -54,4 +57,16 @@ let () = each_line (fun line ->
       let (v, _) = parse_tree toks in
       let e = encode v in
       "enc:" ^ hex_of_bytes e ^ " h=1 | " ^ decode_all e
+  | "B" :: k :: cap :: toks ->
+      let (v, _) = parse_tree toks in
+      let sink = if k = "K" then SinkKeep else SinkBuffer in
+      let (st, chunks) = wb_encode sink (nat_of_int (int_of_string cap)) v in
+      (match st with
+       | WbInternal -> "wb:ERR:internal"
+       | WbFuel -> "wb:OUTOFFUEL"
+       | WbOk ->
+           if k = "K" then
+             "wb:OK s=1 n=" ^ string_of_int (List.length chunks) ^ " " ^
+               (if chunks = [] then "none" else String.concat "," (List.map hex_of_bytes chunks))
+           else "wb:OK " ^ hex_of_bytes (List.concat chunks))
   | _ -> "BADCASE")
